@@ -141,7 +141,8 @@ class Gen:
             text.append("%sflow %s\n%s\n%s\n" % (deco, f, first, "\n".join(body)))
         main_body = []
         for f in names[: self.r.randint(1, len(names))]:
-            main_body.append("  %s %s" % (self.r.choice(["activate", "start", "start", "await"]), f))
+            verbs = ["start", "start", "await"] + (["activate"] if self.has("activate") else [])
+            main_body.append("  %s %s" % (self.r.choice(verbs), f))
         main_body += self.stmts(1, self.depth, names)
         main_body.append("  match Never()")
         text.append("flow main\n%s\n" % "\n".join(main_body))
